@@ -1,6 +1,6 @@
 //! C01 — tolerance-controlled accuracy of every returned sample.
 
-use crate::problems::{base, dissipative, kappa, mix, pair, reference, reflect, warp, Base, Mix, Prob, Warp};
+use crate::problems::{base, dissipative, kappa, mix, pair, reference, reflect, shift, warp, Base, Mix, Prob, Warp};
 use crate::regress;
 use crate::report::{is_thorough, CaseOut, Report, Violation};
 use crate::run::{mname, run, Cfg, Outcome, Tol, M5};
@@ -83,9 +83,12 @@ fn tolerances(mode: Mode, tol: f64, n: usize, yscale: f64) -> Option<(Tol, Tol)>
     })
 }
 
+const SHIFTS: [f64; 2] = [0.0, 50.0];
+
 struct Job {
     key: String,
     method: Method,
+    shift: f64,
     vi: usize,
     dir: Dir,
     scale: f64,
@@ -105,7 +108,12 @@ pub fn run_check(replay: Option<Value>) -> i32 {
                 for (si, sc) in v.scales.iter().enumerate() {
                     for (oi, mode) in MODES.iter().enumerate() {
                         for te in [false, true] {
-                            jobs.push(Job { key: format!("acc:{}.{}.{}.{}.{}.{}", mi, vi, di, si, oi, te as u8), method: *m, vi, dir: *d, scale: *sc, mode: *mode, teval: te });
+                            for (hi, sh) in SHIFTS.iter().enumerate() {
+                                if *sh != 0.0 && (si != 0 || te) {
+                                    continue; // the shifted origin is combined with the default scale, no t_eval
+                                }
+                                jobs.push(Job { key: format!("acc:{}.{}.{}.{}.{}.{}.{}", mi, vi, di, si, oi, te as u8, hi), method: *m, shift: *sh, vi, dir: *d, scale: *sc, mode: *mode, teval: te });
+                            }
                         }
                     }
                 }
@@ -120,8 +128,8 @@ pub fn run_check(replay: Option<Value>) -> i32 {
             }
         }
         let v = &vars[job.vi];
-        let p0 = &v.prob;
-        let x_lo = 0.2;
+        let p0 = &shift(&v.prob, job.shift);
+        let x_lo = 0.2 + job.shift;
         let y_lo: Vec<f64> = p0.y0.iter().map(|y| y * job.scale).collect();
         // the problem, its initial point and its end point for this direction
         let (p, x0, y0, xend) = match job.dir {
@@ -153,11 +161,12 @@ pub fn run_check(replay: Option<Value>) -> i32 {
             return None;
         }
         let desc0 = json!({"key": job.key, "method": mname(job.method), "problem": p.name, "direction": format!("{:?}", job.dir), "x0": x0, "xend": xend, "y0": y0,
-            "mode": format!("{:?}", job.mode), "t_eval": job.teval, "kappa": kap});
+            "mode": format!("{:?}", job.mode), "t_eval": job.teval, "kappa": kap, "time_shift": job.shift});
         let mut worst: Vec<f64> = vec![];
         let mut rows = vec![];
         let mut viols: Vec<(String, String)> = vec![];
         let mut successes = 0;
+        let mut failed_at: Vec<f64> = vec![];
         for tol in LADDER {
             let (rt, at) = match tolerances(job.mode, tol, p.n, ymax) {
                 Some(x) => x,
@@ -204,6 +213,7 @@ pub fn run_check(replay: Option<Value>) -> i32 {
                     worst.push(f64::NAN);
                     rows.push(json!({"tol": tol, "outcome": r.outcome_name()}));
                     out.tag("non-success");
+                    failed_at.push(tol);
                 }
             }
         }
@@ -220,6 +230,10 @@ pub fn run_check(replay: Option<Value>) -> i32 {
         }
         if successes == 0 {
             viols.push(("mode-unsupported".into(), format!("no run of the tolerance ladder succeeded in mode {:?}", job.mode)));
+        } else if !failed_at.is_empty() {
+            // a smooth, well-conditioned problem of the alphabet at a tolerance of the ladder: the
+            // property speaks about the samples such a run returns, so it has to return them
+            viols.push(("not-solved".into(), format!("the run did not reach xend at tolerance(s) {:?} (outcomes in the ladder)", failed_at)));
         }
         let desc = json!({"case": desc0, "ladder": rows, "key": job.key});
         for (c, msg) in viols {
@@ -402,7 +416,7 @@ pub fn run_check(replay: Option<Value>) -> i32 {
     rep.violations.extend(regress::violations_for("C01"));
     rep.dims = json!({"methods": M5.iter().map(|m| mname(*m)).collect::<Vec<_>>(), "problem_variants": vars.iter().map(|v| v.prob.name.clone()).collect::<Vec<_>>(),
         "directions": ["forward", "backward by reflection", "backward on the same f (kappa <= 20)"], "tolerance_ladder": LADDER, "modes": ["mixed atol=1e-2*rtol", "pure absolute (rtol=0)", "pure relative (atol=0, solution bounded away from 0)", "per-component vectors differing by 1e4"],
-        "t_eval": ["none", "7 points incl. endpoints"], "ladders_run": n_ladders, "rk4": "step ladder h = span/2^k, k=3..9"});
+        "t_eval": ["none", "7 points incl. endpoints"], "time_origin": ["x0 = 0.2", "x0 = 50.2 (time-shifted problem)"], "ladders_run": n_ladders, "rk4": "step ladder h = span/2^k, k=3..9"});
     // vacuity: at least 95 % of the ladders must have succeeded at every tolerance... counted per ladder
     let all = rep.tag_count("ladder");
     let ok = rep.tag_count("ladder-all-success");
